@@ -10,8 +10,10 @@ from lunaverif.bfm import g7_ulpi_gen as G
 PROPERTY = "C23"
 ASSUMPTIONS = [
     "UTMI transmit source: tx_valid/tx_data held until tx_ready, next byte (or tx_valid low) in the following cycle",
-    "op_mode and the other control inputs are constant during a case and the start-up register writes have "
-    "completed (translator not busy) before the first transmission (changes concurrent with traffic are C24's domain)",
+    "op_mode and the other control inputs are constant during each transmission (request to STP) and the register "
+    "writes caused by start-up / by a change between two transmissions have completed (translator not busy for 6 "
+    "cycles) before the next transmission or change (changes concurrent with traffic are C24's domain); a packet is "
+    "judged by the op_mode held during it",
     "op_mode is 0 (normal) or 2 (bit-stuffing/NRZI disabled); the PHY never raises DIR between accepting a transmit "
     "command and the STP",
     "PHY obeys ULPI 1.1 (see lunaverif/bfm/g7_ulpi_phy.py)",
@@ -29,7 +31,9 @@ class TranslatorTx(Sub):
     shrink_budget = 150
     budget = {"quick": 6000, "thorough": 80000}
     rule = ("UTMITranslator + ULPI PHY BFM: UTMI transmissions (1..40 bytes, any first byte, op_mode 0/2) with "
-            "generated NXT delay patterns, PHY bursts (RxCmds / receives) between transmissions and aimed at the "
+            "generated NXT delay patterns, 2 cases in 5 with op_mode (0/2; also xcvr/term select) changed between "
+            "packets of the same instance (change and next packet each wait for the translator to be idle), "
+            "PHY bursts (RxCmds / receives) between transmissions and aimed at the "
             "pending transmit command before / in the cycle it would be accepted; oracle from what the PHY "
             "accepted: command byte, data bytes, STP cycle and STP data, tx_ready cycles == PHY acceptance cycles, "
             "data.oe == 0 whenever DIR is high, no command withdrawn or changed before acceptance; non-trivial = "
@@ -43,8 +47,27 @@ class TranslatorTx(Sub):
                        G.burst(trig=weighted([(0, 2), (4, 2), (5, 1)]), p_packet=1))
         init = st.fixed_dictionaries({n: (weighted([(0, 2), (2, 1)]) if n == "op_mode" else
                                           bits(G.CTL_WIDTH.get(n, 1))) for n in G.CTL_NAMES})
-        return st.fixed_dictionaries(dict(
+        const_mode = st.fixed_dictionaries(dict(
             init=init, delays=G.DELAYS, ev=long_lists(ev, min_size=1, max_size=10, average=4)))
+        # several packets on one instance with op_mode differing per packet: a mode change (with the xcvr/term
+        # settings a chirp changes along with it) only while idle, and the next packet only after the Function
+        # Control write it triggers has settled
+        settled = lambda s: s.map(lambda e: dict(e, settle=1))
+        mode = st.fixed_dictionaries(dict(
+            k=st.just("ctl"), gap=G.GAP_SMALL, sync=st.just(0), settle=st.just(1),
+            set=st.one_of(
+                st.fixed_dictionaries(dict(op_mode=st.sampled_from([0, 2]))),
+                st.fixed_dictionaries(dict(op_mode=st.sampled_from([2, 0]), xcvr_select=bits(2), term_select=bits(1))))))
+        step = st.tuples(mode, st.lists(st.one_of(
+            settled(G.tx_request()), settled(G.tx_request()), settled(G.tx_request(max_len=40, average=12)),
+            G.burst(trig=weighted([(0, 2), (4, 2), (5, 1)]), p_packet=1)), min_size=1, max_size=3)
+        ).map(lambda p: [p[0]] + p[1])
+        mixed = st.fixed_dictionaries(dict(
+            init=init, delays=G.DELAYS,
+            ev=st.tuples(st.lists(settled(G.tx_request()), max_size=2),
+                         long_lists(step, min_size=1, max_size=6, average=3)).map(
+                lambda p: p[0] + [e for grp in p[1] for e in grp])))
+        return st.one_of(const_mode, const_mode, const_mode, mixed, mixed)
 
     def run(self, case):
         evs = case["ev"]
@@ -53,13 +76,14 @@ class TranslatorTx(Sub):
         for e in evs:
             if e["k"] == "rx":
                 cap += sum(s["n"] + sum(1 + b[1] for b in s.get("b", ())) + 3 for s in e["segs"])
-            else:
+            elif e["k"] == "tx":
                 cap += (len(e["bytes"]) + 3) * (D + 1)
+            else:
+                cap += 40 + 6 * D                      # the register write a control change triggers
         drv = P.TranslatorDriver(case["init"], evs, case["delays"], quiet=8, cap=cap, settle=True)
         trace = self.h.run_driver(drv, cap + 2)
         phy = drv.phy
         wire = phy.wire
-        mode = case["init"]["op_mode"]
         if drv.ended != "quiet":
             pend = drv.tx is not None
             return fail(f"no quiescence within {cap} cycles (transmission pending: {pend}, PHY state "
@@ -79,6 +103,7 @@ class TranslatorTx(Sub):
         labels = set()
         nontrivial = False
         for i, (rq, tx) in enumerate(zip(reqs, phy.txs)):
+            mode = rq["op_mode"]                    # the op_mode held from this packet's request to its STP
             cmd, rest, stpd = expected_stream(rq["bytes"], mode)
             got = [b for _, b in tx["bytes"]]
             if tx["cmd"] != cmd:
@@ -111,7 +136,13 @@ class TranslatorTx(Sub):
             d = sorted(ready_got ^ ready_exp)
             return fail(f"tx_ready cycles differ from PHY acceptance cycles at {d[:6]} (tx_ready "
                         f"{'high' if d[0] in ready_got else 'low'} in cycle {d[0]})", signature="tx-ready-mismatch")
-        labels.add("nopid" if mode == 2 else "pid")
+        modes = [rq["op_mode"] for rq in reqs]
+        for m_ in set(modes):
+            labels.add("nopid" if m_ == 2 else "pid")
+        if any(a == 2 and b != 2 for a, b in zip(modes, modes[1:])):
+            labels.add("pid-packet-after-nopid-packet")
+        if any(a != 2 and b == 2 for a, b in zip(modes, modes[1:])):
+            labels.add("nopid-packet-after-pid-packet")
         if any(s == "CMD:tx" for _, s in phy.burst_fires):
             labels.add("interrupted-before-accept")
         if any(s == "CMD:tx" and wire[t][1] for t, s in phy.burst_fires):
